@@ -45,6 +45,8 @@ def arith_const():
     l1 = _one(r"if \(hsz >= ([0-9]+)\) \{", f_h1, "h1_chunked header line limit")
     l1b = _one(r"buffer_clen\(c->mem\) - c->offset >= ([0-9]+)\)", f_h1, "h1_chunked partial line limit")
     l2 = _one(r"if \(len >= ([0-9]+)\) \{\s*log_error\(r->conf\.errh, __FILE__, __LINE__,\s*\"chunked header line too long\"", f_hc, "http_chunk_decode_append_data partial line limit")
+    # complete-line limit of the short-circuit path (0a90156)
+    l3 = _one(r"if \(hsz > ([0-9]+)\) \{", f_hc, "http_chunk_decode_append_data complete-line limit")
     sm = _one(r"if \(dst_cq->bytes_in \+ te_chunked <= ([^\n{]*?)\) \{|if \(te_chunked <= ([^\n{]*?) - dst_cq->bytes_in\) \{",
               f_h1, "h1_chunked in-memory threshold")
     sm = sm[0] or sm[1]
@@ -94,8 +96,8 @@ def arith_const():
 #include "plugin_config.h"
 int main(void){
   unsigned short hoff[%(hdim1)s];
-  printf("%%lld %%lld %%lld %%lld %%lld %%lld\n", (long long)(%(g1)s), (long long)(%(g2)s), (long long)(%(l1)s),
-         (long long)(%(l1b)s), (long long)(%(l2)s), (long long)(%(sm)s));
+  printf("%%lld %%lld %%lld %%lld %%lld %%lld %%lld\n", (long long)(%(g1)s), (long long)(%(g2)s), (long long)(%(l1)s),
+         (long long)(%(l1b)s), (long long)(%(l2)s), (long long)(%(sm)s), (long long)(%(l3)s));
   printf("%%lld %%lld %%lld %%lld %%lld %%lld\n", (long long)(%(hbrk)s), (long long)(%(hdim)s), (long long)(%(hdim1)s),
          (long long)(%(h431)s), (long long)(%(hdim2)s), (long long)(%(mrf)s));
   printf("%%lld %%lld %%lld %%lld %%lld %%lld\n", (long long)(%(ccap)s), (long long)(%(fmin)s), (long long)(%(fmax)s),
@@ -106,12 +108,12 @@ int main(void){
          (int)(sizeof(off_t)*8), (int)(sizeof(size_t)*8), (int)(sizeof(((buffer *)0)->used)*8),
          (int)(sizeof(((buffer *)0)->size)*8), (int)(sizeof(unsigned short)*8));
   return 0; }
-''' % dict(g1=g1, g2=g2, l1=l1, l1b=l1b, l2=l2, sm=sm, hbrk=hbrk, hdim=hdim, hdim1=hdim1, h431=h431, hdim2=hdim2,
+''' % dict(g1=g1, g2=g2, l1=l1, l1b=l1b, l2=l2, sm=sm, l3=l3, hbrk=hbrk, hdim=hdim, hdim1=hdim1, h431=h431, hdim2=hdim2,
            mrf=mrf, ccap=ccap, fmin=fmin, fmax=fmax, fdef=fdef, tbsz=tbsz, rfs1=rfs1, h2d0=h2dims[0], h2d1=h2dims[1])
     out = c_dump(prog)
     try:
         rows = [[int(x) for x in l.split()] for l in out.strip().split("\n")]
-        (cg1, cg2, cl1, cl1b, cl2, csm), (vbrk, vdim, vdim1, v431, vdim2, vmrf), \
+        (cg1, cg2, cl1, cl1b, cl2, csm, cl3), (vbrk, vdim, vdim1, v431, vdim2, vmrf), \
             (vcap, vfmin, vfmax, vfdef, vtb, vrfs), (vh2d0, vh2d1, vushrt, vshrtbits), (piece, intmax, offb, szb, usedb, sizeb, ushb) = rows
     except (ValueError, IndexError):
         raise ExtractError("ArithConst dumper: unexpected output %r" % out[:300])
@@ -125,6 +127,7 @@ int main(void){
     s += d("ckLineMaxH1", cl1, "h1_chunked(): chunk header lines of this many bytes or more are rejected")
     s += d("ckPartialMaxH1", cl1b, "h1_chunked(): an unterminated chunk header of this many bytes is rejected")
     s += d("ckPartialMaxGw", cl2, "http_chunk_decode_append_data(): an unterminated chunk header of this many bytes is rejected")
+    s += d("ckLineMaxGw", cl3, "http_chunk_decode_append_data(): a complete chunk header line longer than this is rejected")
     s += d("ckInMemMax", csm, "h1_chunked(): request bodies up to this size are kept in memory", "Int")
     s += d("hoffBreak", vbrk, "http_header_parse_hoff(): `++hoff[0] >= N` stops the scan")
     s += d("hoffDim", vdim, "http_header_parse_hoff() prototype: unsigned short hoff[N]")
